@@ -1114,6 +1114,14 @@ class Engine:
             name = self.mir.resolve(callee)
         if name is None:
             raise Unsupported("call to unmodelled function: " + mirmod.strip_generics(callee)[:160])
+        # std's blanket `impl<T: Trait> Trait for &T / &mut T` (AsRef, Borrow, ...) forwards to T's impl: the call site passes
+        # a reference to the reference, the resolved body takes the reference itself
+        mref = re.match(r"^<&(?:mut )?\s*[\w:]+ as (?:[\w:]*::)?(AsRef|AsMut|Borrow|BorrowMut)<", callee.strip())
+        if mref and args and isinstance(args[0], Ptr):
+            inner0 = self.load_ptr(st, args[0])
+            mh = re.search(r"\(_1: (&(?:mut )?)+", self.mir.bodies[name].header)
+            if isinstance(inner0, Ptr) and mh and mh.group(0).count("&") == 1:
+                args = [inner0] + list(args[1:])
         if name in self.stubs:
             r = self.stubs[name](self, st, args)
             if r is not None:  # None: the stub declines this call site, run the real body
